@@ -55,7 +55,7 @@ Proof. exact cnf_sound_formb. Qed.
 Print Assumptions C11_cnf_sound_form.
 
 (* asCnf, public API level (exactly-one groups have their standard meaning). *)
-Theorem C11_cnf_complete : forall s, clash_free s = true -> forall env, seval env s = true ->
+Theorem C11_cnf_complete : forall s env, seval env s = true ->
   exists m, List.length m = List.length (v_all (c_vars (as_cnf (desugar s)))) /\
             sat_cnf m (c_clauses (as_cnf (desugar s))) = true /\
             forall n i, tbl_get (v_all (c_vars (as_cnf (desugar s)))) (pb_var n) = Some i ->
@@ -69,24 +69,37 @@ Theorem C11_cnf_sound : forall s, positive_unique s = true -> forall m dflt,
 Proof. exact cnf_sound. Qed.
 Print Assumptions C11_cnf_sound.
 
+(* Two exactly-one groups of a formula that share an auxiliary variable define
+   it identically (was refuted before the names were quoted, bf.go:347-354). *)
+Theorem C11_clash_free : forall s, clash_free s = true.
+Proof. exact clash_free_all. Qed.
+Print Assumptions C11_clash_free.
+
 (* Solve, over any decision procedure satisfying the contract of Spec/Solver.v. *)
 Theorem C11_solve : forall solve, solver_ok solve -> forall s,
   match bf_solve solve (desugar s) with
-  | None => clash_free s = true -> forall env, seval env s = false
-  | Some mp => positive_unique s = true -> names_distinct (desugar s) = true ->
-               forall dflt, seval (complete mp dflt) s = true
+  | None => forall env, seval env s = false
+  | Some mp => positive_unique s = true -> forall dflt, seval (complete mp dflt) s = true
   end.
 Proof. exact solve_correct. Qed.
 Print Assumptions C11_solve.
 
 Theorem C11_solve_ref : forall s,
   match solve_ref (desugar s) with
-  | None => clash_free s = true -> forall env, seval env s = false
-  | Some mp => positive_unique s = true -> names_distinct (desugar s) = true ->
-               forall dflt, seval (complete mp dflt) s = true
+  | None => forall env, seval env s = false
+  | Some mp => positive_unique s = true -> forall dflt, seval (complete mp dflt) s = true
   end.
 Proof. exact solve_ref_correct. Qed.
 Print Assumptions C11_solve_ref.
+
+(* The result binds exactly the named variables that survive constant folding,
+   once each: the Go map does not depend on the iteration order and no auxiliary
+   variable can hide a user variable (was refuted before bf.go:428). *)
+Theorem C11_solve_bindings : forall solve s mp, bf_solve solve (desugar s) = Some mp ->
+  NoDup (map fst mp) /\
+  forall n, In n (map fst mp) <-> In (pb_var n) (fvars (nnf (desugar s))).
+Proof. exact solve_bindingsb. Qed.
+Print Assumptions C11_solve_bindings.
 
 (* Eval on a map that binds every name of the formula is the standard semantics. *)
 Theorem C11_eval_go : forall m f,
@@ -95,11 +108,10 @@ Theorem C11_eval_go : forall m f,
 Proof. exact eval_go_eval. Qed.
 Print Assumptions C11_eval_go.
 
-(* Findings: the three hypotheses of C11_solve are necessary. *)
-
-(* without [positive_unique]: a negated exactly-one group of 5 names *)
+(* Open finding (D15): [positive_unique] is necessary.  A negated exactly-one
+   group of 5 names: the formula is false under every assignment and Solve
+   returns an assignment. *)
 Theorem C11_neg_unique_refuted : exists s mp,
-  clash_free s = true /\ names_distinct (desugar s) = true /\
   positive_unique s = false /\
   solve_ref (desugar s) = Some mp /\
   seval (complete mp (fun _ => false)) s = false /\
@@ -107,25 +119,7 @@ Theorem C11_neg_unique_refuted : exists s mp,
 Proof. exact neg_unique_refuted. Qed.
 Print Assumptions C11_neg_unique_refuted.
 
-(* without [clash_free]: two groups whose joined names coincide *)
-Theorem C11_unique_clash_refuted : exists s env,
-  positive_unique s = true /\ names_distinct (desugar s) = true /\
-  clash_free s = false /\
-  solve_ref (desugar s) = None /\ seval env s = true.
-Proof. exact unique_clash_refuted. Qed.
-Print Assumptions C11_unique_clash_refuted.
-
-(* without [names_distinct]: a user variable named like a dummy gets two
-   contradictory bindings in the result (the Go map keeps one of them) *)
-Theorem C11_name_clash_refuted : exists s mp n,
-  clash_free s = true /\ positive_unique s = true /\
-  names_distinct (desugar s) = false /\
-  solve_ref (desugar s) = Some mp /\ In (n, true) mp /\ In (n, false) mp /\
-  (forall env, env n = false -> seval env s = false).
-Proof. exact name_clash_refuted. Qed.
-Print Assumptions C11_name_clash_refuted.
-
-(* The hypotheses are satisfiable (every connective, a group of 6 names in a
+(* The hypothesis is satisfiable (every connective, a group of 6 names in a
    positive position, small groups under Eq and under a negation). *)
 Definition C11_ex : sform :=
   SAnd [SOr [SVar "x"; SUnique ["a"; "b"; "c"; "d"; "e"; "f"]];
@@ -134,9 +128,7 @@ Definition C11_ex : sform :=
         SXor (SVar "x") (SNot (SUnique ["d"; "e"]));
         SOr []; SAnd []; STrue; SNot SFalse].
 
-Example C11_ex_hyps :
-  positive_unique C11_ex = true /\ clash_free C11_ex = true /\
-  names_distinct (desugar C11_ex) = true /\ fv_okb (desugar C11_ex) = true.
+Example C11_ex_hyps : positive_unique C11_ex = true /\ fv_okb (desugar C11_ex) = true.
 Proof. vm_compute. repeat split. Qed.
 
 Definition C11_ex2 : sform :=
@@ -145,10 +137,8 @@ Definition C11_ex2 : sform :=
         SEq (SVar "y") (SUnique ["a"; "b"; "c"]);
         SXor (SVar "x") (SNot (SUnique ["d"; "e"]))].
 
-Example C11_ex2_hyps :
-  positive_unique C11_ex2 = true /\ clash_free C11_ex2 = true /\
-  names_distinct (desugar C11_ex2) = true.
-Proof. vm_compute. repeat split. Qed.
+Example C11_ex2_hyps : positive_unique C11_ex2 = true.
+Proof. vm_compute. reflexivity. Qed.
 
 Example C11_ex2_solve : exists mp, solve_ref (desugar C11_ex2) = Some mp /\
   seval (complete mp (fun _ => false)) C11_ex2 = true /\
@@ -162,6 +152,20 @@ Example C11_and_empty : solve_ref (desugar (SAnd [])) = Some [].
 Proof. vm_compute. reflexivity. Qed.
 
 Example C11_or_empty : solve_ref (desugar (SOr [])) = None.
+Proof. vm_compute. reflexivity. Qed.
+
+(* The witnesses of the two former findings now behave (same answers as the
+   real bf.Solve at 7f1b83d). *)
+Example C11_clash_fixed :
+  solve_ref (desugar clash_witness) =
+  Some [("a-b", true); ("c", false); ("d", false); ("e", false); ("f", false);
+        ("a", false); ("b-c", true)].
+Proof. vm_compute. reflexivity. Qed.
+
+Example C11_name_clash_fixed :
+  solve_ref (desugar name_clash_witness) =
+  Some [("line-0-a-b-c-d-e", true); ("d", true); ("a", false); ("b", false);
+        ("c", false); ("e", false)].
 Proof. vm_compute. reflexivity. Qed.
 
 (* D14's shape: or-in-and-in-or; numbering and clause order of asCnf *)
